@@ -37,6 +37,8 @@ type JavaCase struct {
 	Files []jgen.File `json:"files"`
 	Roots []string    `json:"roots"` // pkg.Class.method: roots of the call / reverse call graphs
 	Reps  int         `json:"reps,omitempty"`
+	// kinds named in the ignore list of the bad-smell report (`coca bs -x a,b`); none = the plain report only
+	Ignore []string `json:"ignore,omitempty"`
 }
 
 // ---------------------------------------------------------------------------------------
@@ -280,7 +282,7 @@ func testClass(t *rapid.T, idx int) jgen.File {
 	w.f("package %s;\n\nimport org.junit.Test;\nimport org.junit.Ignore;\nimport static org.junit.Assert.assertEquals;\nimport static org.junit.Assert.assertTrue;\n\npublic class %s {\n", shopPkg, name)
 	n := rapid.IntRange(2, 4).Draw(t, "nTests")
 	for i := 0; i < n; i++ {
-		switch rapid.IntRange(0, 7).Draw(t, "testKind") {
+		switch kind := rapid.IntRange(0, 10).Draw(t, "testKind"); kind {
 		case 0: // plain good test
 			w.f("    @Test\n    public void good%d() {\n        OrderRepo repo = new OrderRepo();\n        assertEquals(1, repo.count());\n    }\n\n", i)
 		case 1: // no assertion
@@ -299,6 +301,8 @@ func testClass(t *rapid.T, idx int) jgen.File {
 				w.f("        assertEquals(%d, repo.count());\n", l)
 			}
 			w.f("    }\n\n")
+		case 8, 9, 10: // several groups of five calls, a redundant assertion
+			extraTestMethod(w, kind, i)
 		default: // assertion in a helper of this class
 			w.f("    @Test\n    public void viaHelper%d() {\n        OrderRepo repo = new OrderRepo();\n        repo.count();\n        helpIt(repo);\n    }\n\n", i)
 		}
@@ -375,6 +379,19 @@ func genJava(t *rapid.T) JavaCase {
 				}
 			}
 		}
+	}
+	// collision shapes: types of one simple name in several packages, several implementations of
+	// an interface, handlers with parameters, inheritance, nested and anonymous classes, a class
+	// with twenty methods, an ignore list (c08_shapes_test.go)
+	extras := genShopExtras(t, hasUtil)
+	for _, f := range extras.files {
+		add(f)
+	}
+	c.Ignore = extras.ignore
+	if len(extras.roots) > 0 && rapid.Bool().Draw(t, "rootsFromExtras") {
+		roots = append(append([]string(nil), extras.roots...), roots...)
+	} else {
+		roots = append(roots, extras.roots...)
 	}
 	roots = dedupe(roots)
 	nRoots := rapid.IntRange(1, 3).Draw(t, "nRoots")
@@ -624,9 +641,15 @@ func checkJava(c JavaCase) pbt.Verdict {
 			for _, k := range sortedKeys(groups) {
 				rawGroups.WriteString(k + js(groups[k]))
 			}
-			return []report{{"bad-smell-model", js(infos), canonTypes(infos)},
+			out := []report{{"bad-smell-model", js(infos), canonTypes(infos)},
 				{"bad-smells", js(smells), multiset(smellItems(smells))},
 				{"bad-smells-by-type", rawGroups.String(), canonSmellGroups(groups)}}
+			if len(c.Ignore) > 0 {
+				// `coca bs -x kind1,kind2`: same analysis, some kinds left out
+				kept := dropGraphSmell(bsApp.IdentifyBadSmell(infos, append([]string(nil), c.Ignore...)))
+				out = append(out, report{"bad-smells-ignoring", js(kept), multiset(smellItems(kept))})
+			}
+			return out
 		})...)
 
 		// `coca tbs`
@@ -682,6 +705,19 @@ func checkJava(c JavaCase) pbt.Verdict {
 			v.Classes = append(v.Classes, "java/with_controller")
 			break
 		}
+	}
+	for _, mark := range [][2]string{{"/dto/Order.java", "java/simple_name_in_two_packages"}, {"/report/OrderService.java", "java/two_services_of_one_name"},
+		{"/SlowShipper.java", "java/interface_with_several_components"}, {"/ArchiveRepo.java", "java/subclass_calling_super"},
+		{"/Jobs.java", "java/field_initialisers_anonymous_nested"}, {"/Huge0.java", "java/class_with_twenty_methods"}, {"/Huge1.java", "java/two_classes_with_twenty_methods"}} {
+		for _, f := range c.Files {
+			if strings.HasSuffix(f.Path, mark[0]) {
+				v.Classes = append(v.Classes, mark[1])
+				break
+			}
+		}
+	}
+	if len(c.Ignore) > 0 {
+		v.Classes = append(v.Classes, fmt.Sprintf("java/ignore_list_of_%d", len(c.Ignore)))
 	}
 	return v
 }
